@@ -303,6 +303,25 @@ inductive Err where
   | hashLen | badState | evenTerms | panic
   deriving DecidableEq, Repr
 
+/-- `iter.map(f).try_collect()` / `collect::<Result<Vec<_>, _>>()`: stop at the first error -/
+def mapE {α β} (f : α → Except Err β) : List α → Except Err (List β)
+  | [] => .ok []
+  | x :: xs =>
+    match f x with
+    | .error e => .error e
+    | .ok y =>
+      match mapE f xs with
+      | .error e => .error e
+      | .ok ys => .ok (y :: ys)
+
+/-- a `for` loop with `?` in its body -/
+def foldE {α σ} (f : σ → α → Except Err σ) : σ → List α → Except Err σ
+  | s, [] => .ok s
+  | s, x :: xs =>
+    match f s x with
+    | .error e => .error e
+    | .ok s' => foldE f s' xs
+
 /-! ### ref targets -/
 
 open JjModel.Merge (adds removes)
@@ -395,15 +414,21 @@ def mergeJoin : Nat → List (Name × RefTarget) → List ((Name × Name) × Rem
       let rest := remotes.dropWhile (fun e => e.1.1 == pick.1)
       (pick.1, pick.2.1, taken.map (fun e => (e.1.2, e.2))) :: mergeJoin fuel pick.2.2 rest
 
+abbrev JoinEntry := Name × RefTarget × List (Name × RemoteRef)
+
+def remoteBookmarkToProto (rb : Name × RemoteRef) : PRemoteBookmark :=
+  { remoteName := rb.1, target := refTargetToProto rb.2.target,
+    state := some (remoteRefStateToProto rb.2.state) }
+
+def joinEntryToProto (e : JoinEntry) : PBookmark :=
+  { name := e.1
+    localTarget := refTargetToProto e.2.1
+    remoteBookmarks := e.2.2.map remoteBookmarkToProto }
+
 /-- `bookmark_views_to_proto_legacy` -/
 def bookmarkViewsToProtoLegacy (lb : BMap RefTarget) (rvs : BMap RemoteView) : List PBookmark :=
   let remotes := flattenRemoteRefs rvs (·.bookmarks)
-  (mergeJoin (lb.length + remotes.length + 1) lb remotes).map fun e =>
-    { name := e.1
-      localTarget := refTargetToProto e.2.1
-      remoteBookmarks := e.2.2.map fun rb =>
-        { remoteName := rb.1, target := refTargetToProto rb.2.target,
-          state := some (remoteRefStateToProto rb.2.state) } }
+  (mergeJoin (lb.length + remotes.length + 1) lb remotes).map joinEntryToProto
 
 def RemoteView.empty : RemoteView := ⟨[], []⟩
 
@@ -422,18 +447,19 @@ def legacyRemoteStep (bname : Name) (rvs : BMap RemoteView) (rb : PRemoteBookmar
 def legacyStep (acc : BMap RefTarget × BMap RemoteView) (b : PBookmark) :
     Except Err (BMap RefTarget × BMap RemoteView) := do
   let localTarget ← refTargetFromProto b.localTarget
-  let rvs ← b.remoteBookmarks.foldlM (legacyRemoteStep b.name) acc.2
+  let rvs ← foldE (legacyRemoteStep b.name) acc.2 b.remoteBookmarks
   .ok (if localTarget.isPresent then acc.1.insert b.name localTarget else acc.1, rvs)
 
 /-- `bookmark_views_from_proto_legacy` -/
 def bookmarkViewsFromProtoLegacy (bs : List PBookmark) : Except Err (BMap RefTarget × BMap RemoteView) :=
-  bs.foldlM legacyStep ([], [])
+  foldE legacyStep ([], []) bs
 
 /-! ### new-style remote views -/
 
-def remoteRefsToProto (m : BMap RemoteRef) : List PRemoteRef :=
-  m.map fun e => { name := e.1, targetTerms := refTargetToTermsProto e.2.target,
-                   state := remoteRefStateToProto e.2.state }
+def remoteRefToProto (e : Name × RemoteRef) : PRemoteRef :=
+  { name := e.1, targetTerms := refTargetToTermsProto e.2.target, state := remoteRefStateToProto e.2.state }
+
+def remoteRefsToProto (m : BMap RemoteRef) : List PRemoteRef := m.map remoteRefToProto
 
 def remoteRefFromProto (p : PRemoteRef) : Except Err (Name × RemoteRef) := do
   let target ← refTargetFromTermsProto p.targetTerms
@@ -441,12 +467,13 @@ def remoteRefFromProto (p : PRemoteRef) : Except Err (Name × RemoteRef) := do
   .ok (p.name, ⟨target, state⟩)
 
 def remoteRefsFromProto (l : List PRemoteRef) : Except Err (BMap RemoteRef) := do
-  let es ← l.mapM remoteRefFromProto
+  let es ← mapE remoteRefFromProto l
   .ok (BMap.ofList es)
 
-def remoteViewsToProto (rvs : BMap RemoteView) : List PRemoteView :=
-  rvs.map fun e => { name := e.1, bookmarks := remoteRefsToProto e.2.bookmarks,
-                     tags := remoteRefsToProto e.2.tags }
+def remoteViewToProto (e : Name × RemoteView) : PRemoteView :=
+  { name := e.1, bookmarks := remoteRefsToProto e.2.bookmarks, tags := remoteRefsToProto e.2.tags }
+
+def remoteViewsToProto (rvs : BMap RemoteView) : List PRemoteView := rvs.map remoteViewToProto
 
 def remoteViewFromProto (p : PRemoteView) : Except Err (Name × RemoteView) := do
   let bookmarks ← remoteRefsFromProto p.bookmarks
@@ -454,7 +481,7 @@ def remoteViewFromProto (p : PRemoteView) : Except Err (Name × RemoteView) := d
   .ok (p.name, ⟨bookmarks, tags⟩)
 
 def remoteViewsFromProto (l : List PRemoteView) : Except Err (BMap RemoteView) := do
-  let es ← l.mapM remoteViewFromProto
+  let es ← mapE remoteViewFromProto l
   .ok (BMap.ofList es)
 
 /-! ### views -/
@@ -503,26 +530,34 @@ def migrateGitTags (gitRefs : BMap RefTarget) (rvs : BMap RemoteView) : Except E
       if !gv.tags.isEmpty then .error .panic
       else .ok (rvs.insert gitRemote { gv with tags := gitTags })
 
+/-- `view_from_proto`, the choice between legacy and new-style remote views + tag migration -/
+def remoteViewsOfProto (p : PView) (legacyRemoteViews : BMap RemoteView) (gitRefs : BMap RefTarget) :
+    Except Err (BMap RemoteView) := do
+  let remoteViews ← if p.remoteViews.isEmpty then .ok legacyRemoteViews else remoteViewsFromProto p.remoteViews
+  if p.migrated then .ok remoteViews else migrateGitTags gitRefs remoteViews
+
+/-- `view_from_proto`, the `git_heads` part (with the `git_head` / `git_head_legacy` fallbacks) -/
+def gitHeadsOfProto (p : PView) : Except Err (BMap RefTarget) := do
+  let gitHeads ← mapE namedTargetFromProto p.gitHeads
+  let gitHeads := BMap.ofList gitHeads
+  if gitHeads.isEmpty then do
+    let gitHead ← if p.gitHead.isSome then refTargetFromProto p.gitHead
+                  else if !p.gitHeadLegacy.isEmpty then .ok (RefTarget.normal p.gitHeadLegacy)
+                  else .ok RefTarget.absent
+    .ok (if gitHead.isPresent then gitHeads.insert defaultWorkspace gitHead else gitHeads)
+  else .ok gitHeads
+
 /-- `view_from_proto` -/
 def viewFromProto (p : PView) : Except Err View := do
   let wc0 : BMap Id := if p.wcCommitId.isEmpty then [] else [(defaultWorkspace, p.wcCommitId)]
   let wcCommitIds := p.wcCommitIds.foldl (fun m e => m.insert e.1 e.2) wc0
   let headIds := setOfList p.headIds
   let (localBookmarks, legacyRemoteViews) ← bookmarkViewsFromProtoLegacy p.bookmarks
-  let localTags ← p.localTags.mapM namedTargetFromProto
-  let gitRefs ← p.gitRefs.mapM gitRefFromProto
+  let localTags ← mapE namedTargetFromProto p.localTags
+  let gitRefs ← mapE gitRefFromProto p.gitRefs
   let gitRefs := BMap.ofList gitRefs
-  let remoteViews ← if p.remoteViews.isEmpty then .ok legacyRemoteViews else remoteViewsFromProto p.remoteViews
-  let remoteViews ← if p.migrated then .ok remoteViews else migrateGitTags gitRefs remoteViews
-  let gitHeads ← p.gitHeads.mapM namedTargetFromProto
-  let gitHeads := BMap.ofList gitHeads
-  let gitHeads ←
-    if gitHeads.isEmpty then do
-      let gitHead ← if p.gitHead.isSome then refTargetFromProto p.gitHead
-                    else if !p.gitHeadLegacy.isEmpty then .ok (RefTarget.normal p.gitHeadLegacy)
-                    else .ok RefTarget.absent
-      .ok (if gitHead.isPresent then gitHeads.insert defaultWorkspace gitHead else gitHeads)
-    else .ok gitHeads
+  let remoteViews ← remoteViewsOfProto p legacyRemoteViews gitRefs
+  let gitHeads ← gitHeadsOfProto p
   .ok { headIds, localBookmarks, localTags := BMap.ofList localTags, remoteViews, gitRefs, gitHeads,
         wcCommitIds }
 
@@ -566,7 +601,7 @@ def checkIdLen (b : Bytes) : Except Err Id := if b.length = idLength then .ok b 
 
 /-- `operation_from_proto` -/
 def operationFromProto (p : POperation) : Except Err Operation := do
-  let parents ← p.parents.mapM checkIdLen
+  let parents ← mapE checkIdLen p.parents
   let viewId ← checkIdLen p.viewId
   let metadata := operationMetadataFromProto (p.metadata.getD POperationMetadata.default)
   let commitPredecessors :=
